@@ -154,6 +154,16 @@ impl RemovalBuffer {
         }
     }
 
+    /// Forgets all buffered removals for an entity.
+    ///
+    /// Keeps the allocated memory for reuse.
+    pub(super) fn remove_entity(&mut self, entity: Entity) {
+        if let Some(mut removed_ids) = self.removals.remove(&entity) {
+            removed_ids.clear();
+            self.ids_buffer.push(removed_ids);
+        }
+    }
+
     /// Clears all removals.
     ///
     /// Keeps the allocated memory for reuse.
